@@ -1922,7 +1922,8 @@ class Interp:
         # `[x for x in seq if ..]`, and `[k for k, v in seq if ..]`: the element is one of the names the target binds
         # (a projection of the selected element of seq); anything else is modelled as the argument of sum() only
         if not (isinstance(e.elt, ast.Name) and e.elt.id in tnames and tnames.count(e.elt.id) == 1
-                and (isinstance(g.target, ast.Name) or (isinstance(g.target, ast.Tuple) and all(isinstance(x, ast.Name) for x in g.target.elts)))):
+                and (isinstance(g.target, ast.Name) or (isinstance(e, ast.ListComp) and isinstance(g.target, ast.Tuple) and all(isinstance(x, ast.Name) for x in g.target.elts)))):
+            # (a generator expression over a tuple target keeps the sum() model: `sum(w for w, o in seq if ..)`)
             return self._sym_filter_sum(st, e, fr, seq)
         n = Q.seq_len(seq)
         base = Q.to_sseq(seq)
